@@ -113,8 +113,9 @@ def same(a, b, path="obj", seen=None, strict_order=True):
             d = same(a.default_factory, b.default_factory, path + ".default_factory", seen)
             if d:
                 return d
-        for k in ka:
-            d = same(a[k], b[k], f"{path}[{k!r}]", seen)
+        # by position (the key lists were just compared pairwise): a NaN key cannot be looked up again
+        for k, x, y in zip(ka, list(a.values()), list(b.values())):
+            d = same(x, y, f"{path}[{k!r}]", seen)
             if d:
                 return d
         return None
